@@ -112,6 +112,7 @@ type ReqOpts struct {
 	OneOutput    bool // stored responses all carry a well-formed output (their shape only matters to callbacks)
 	OnlyState    int  // -1: any state
 	Huge         bool // model the SDK's 255-bit range checks; the state holds what a chain can hold (amounts < 2^127)
+	Exchange     bool // the host application knows a second token ("gold"); bindings publish their price in it
 }
 
 // ctxFields draws the lifecycle-independent fields of a context within the CTX invariant.
@@ -170,7 +171,13 @@ func (s *ReqScene) counterRoom() {
 func NewReqScene(o ReqOpts) *ReqScene {
 	s := &ReqScene{}
 	noMinAssumed = o.AnyDeposit
-	s.K, s.Ctx = vf.Env()
+	priceDenom = Denom
+	if o.Exchange {
+		priceDenom = Gold
+		s.K, s.Ctx = vf.EnvWith(twoTokens{})
+	} else {
+		s.K, s.Ctx = vf.Env()
+	}
 	k := s.K
 	if o.Huge {
 		hugeMode = true
